@@ -26,6 +26,12 @@ Definition show_q (x : F) : Z * positive := (Qnum (this x), Qden (this x)).
 Definition show_coeffs n m w Phi Y : option (seq (seq (Z * positive))) :=
   if spec_coeffs n m w Phi Y is Some C then Some [seq [seq show_q x | x <- c] | c <- C] else None.
 
+Definition num_svd (cu2 floor2 eps : F) (n m : nat) (w : option (seq F)) (Phi Y U : smx F) (sg : seq F) (Vt C : smx F) : N :=
+  N.of_nat (check_svd cu2 floor2 eps n m w Phi Y U sg Vt C).
+
+Definition num_jac_impl (cu2 floor2 : F) (n m : nat) (w : option (seq F)) (U : smx F) (Ds : seq (smx F)) (C J : smx F) : N :=
+  N.of_nat (check_jac_impl cu2 floor2 n m w U Ds C J).
+
 Definition num_band (cu2 floor2 : F) (n : nat) (t : F) (usigma radius : seq F) : N :=
   N.of_nat (check_band cu2 floor2 n t usigma radius).
 
